@@ -18,7 +18,14 @@ FD = "magpylib/_src/fields/"
 FWB = FD + "field_wrap_BH.py"
 OC = "magpylib/_src/obj_classes/"
 IC_ = "magpylib/_src/input_checks.py"
+CO_ = "magpylib/_src/obj_classes/class_Collection.py"
 MUTANTS = [
+    ("C11", "add-commit-while-validating", CO_, "            if obj._parent is not None and not override_parent:\n                raise MagpylibBadUserInput(", "            if obj._parent is None:\n                obj._parent = self\n            if obj._parent is not self and not override_parent:\n                raise MagpylibBadUserInput(", "red"),
+    ("C11", "children-setter-view-update-dropped", CO_, "        self._children = []\n        self._update_src_and_sens()\n", "        self._children = []\n", "red"),
+    ("C11", "remove-forgets-parent-reset", CO_, "                rec_obj_remover(self, child)\n                child._parent = None\n", "                rec_obj_remover(self, child)\n", "red"),
+    ("C11", "add-no-cycle-check-for-self", CO_, "                if obj is self or self in obj.collections_all:", "                if self in obj.collections_all:", "red"),
+    ("C11", "add-duplicate-check-dropped", CO_, "            if any(obj is other for other in obj_list[:ind]):\n                raise MagpylibBadUserInput(f\"Cannot add {obj!r} more than once.\")\n", "", "red"),
+    ("C11", "update-views-skips-collections", CO_, "            obj for obj in self._children if isinstance(obj, Collection)\n        ]", "            obj for obj in self._children if isinstance(obj, Collection) and obj._children\n        ]", "red"),
     ("C17", "shape-check-ignores-last-axis-with-length", IC_, "        if length is None or len(inp) == length:\n            if inp.shape[-1] == shape_m1:", "        if length is not None and len(inp) == length:\n            return None\n        if length is None:\n            if inp.shape[-1] == shape_m1:", "red"),
     ("C17", "cuboid-dimension-allows-zero", IC_, "        if np.any(inp <= 0):", "        if np.any(inp < 0):", "equivalent"),
     ("C17", "cuboid-dimension-allows-negative", IC_, "        if np.any(inp <= 0):", "        if np.any(inp == 0):", "red"),
